@@ -31,30 +31,43 @@ LEVEL_NOTE = ("Trusted: Coq kernel, translator (constants only: positiveRange/is
               "the model's atomic steps cover CheckAndPutManifest writers and readers only, which is how NBS uses it. "
               "NBS sub-model: table files, memtable and conjoin are abstracted (C02's subject); interleavings inside one manifest.Update (read / CheckAndPut / re-read) "
               "are covered by read_then_cap_is_atomic + failed_cap_changes_nothing, not by a full refinement (A-B-A on contents yields a spurious retry). "
-              "GitBlobstore not exercised: versions are git object ids (content addressed, so versions_distinct is false by design), Put of a non-manifest key is "
-              "idempotent and deferred until the next CheckAndPutManifest, out-of-range offsets are errors in both directions.")
+              "GitBlobstore: exercised on the manifest key with two clients of one bare remote in /tmp (sequential CAS, ranges, and a foreign CheckAndPut injected between "
+              "a client's fetch/validate and its push through the add-only hook go/store/blobstore/verif_export_c42.go); its retry loop is modelled and proved to be one "
+              "CAS at the state of the successful push (git_cap_retry_is_cas). Not modelled: Put of a non-manifest key (idempotent, deferred until the next "
+              "CheckAndPutManifest), chunked objects, read staleness within SyncForReadTTL. The reader/writer stress (local-get-pair-stress) is statistical.")
 THEOREMS = ["cap_is_cas", "failed_cap_changes_nothing", "cap_succeeds_iff_expected_is_current", "one_winner_per_expected_version",
             "exactly_one_winner", "range_spec_inmem", "range_spec_local", "range_spec_nonneg", "range_spec_suffix", "spec_slice_is_window",
             "range_out_of_range_inmem", "range_out_of_range_local", "concat_spec", "concat_missing_source_local",
             "concat_missing_source_is_error_refuted", "read_then_cap_is_atomic", "read_then_cap_is_atomic_without_versions_distinct_refuted",
-            "bs_update_refines_local", "bs_store_same_semantics", "oracle_on_model"]
+            "bs_update_refines_local", "bs_store_same_semantics",
+            "range_spec_git", "range_out_of_range_git", "git_cap_retry_is_cas", "git_cap_success_only_if_expected_at_push",
+            "git_cap_validate_once_refuted", "get_pair_is_a_state", "manifest_pair_was_written", "oracle_on_model"]
 REFUTED = ["concat_missing_source_is_error_refuted (InMemoryBlobstore.Concatenate treats a missing source as empty instead of failing)",
            "read_then_cap_is_atomic_without_versions_distinct_refuted (with a reused version a stale CheckAndPut wins and overwrites: "
-           "what known finding blobstore.local:mtime-version-collision permits)"]
+           "what known finding blobstore.local:mtime-version-collision permits)",
+           "git_cap_validate_once_refuted (a lease-retry loop that validates the expected version only on its first attempt is not a CAS; "
+           "the real loop re-validates on every attempt: git_cap_retry_is_cas; exercised by tag git-cas-retry-after-foreign-push)"]
 RULE = ("op sequences Put/Get(range)/CheckAndPutManifest/Concatenate on 4 keys against a fresh in-memory or local blobstore; ranges drawn from boundaries "
         "(0, size, size+-1, negative offsets up to and beyond -size, length overshoots, length 0) plus an exhaustive (offset,length) sweep over small sizes; "
         "concurrent groups of n goroutines CheckAndPut with the same expected version (current or stale) with concurrent readers; non-trivial = at least one "
         "write and one read or conditional write; distinct by case content. NBS sub-case: Put/Rebase/Commit histories of 1-2 clients run on NomsBlockStores over an "
         "InMemoryBlobstore, over a LocalBlobstore and on a local directory store; every client puts its own globally fresh chunks and commits one of its own chunks "
         "(or the empty root / a dangling one), so the two known C02 patterns (identical concurrent commits) cannot arise; Commit(x,x) with nothing novel is generated "
-        "and is treated identically by all three stores and the model")
+        "and is treated identically by all three stores and the model. Git sub-case: two GitBlobstore clients on one bare remote, CheckAndPutManifest with current / stale / "
+        "bogus expectations, contents from a small space so that versions come back, ranged reads, and races where the other client's CheckAndPut lands right before the "
+        "acting client's first push. Stress sub-case: 100 counter-valued CheckAndPutManifest updates by one writer against 8 spinning readers on a LocalBlobstore")
 ASSUMPTIONS = ["versions_distinct: a new write gets a non-empty version different from all earlier versions of that key (uuid / mtime with the 10 ms sleep); measured by the oracle on every run",
                "each API call is one atomic step (backend lock); unconditional Put of the manifest key is not raced against CheckAndPutManifest on the local backend",
-               "blob sizes and offsets are far below 2^63 (no int64 overflow in positiveRange)"]
+               "blob sizes and offsets are far below 2^63 (no int64 overflow in positiveRange)",
+               "git: versions are object ids (identical contents <=> identical version, measured by the oracle instead of freshness); SyncForReadTTL is set to 1ns by the "
+               "verif constructor so that every manifest read fetches; only the manifest key is exercised (Puts of other keys are idempotent and deferred)",
+               "stress: which (version, contents) pairs the readers catch is scheduling; required is only that every pair was installed by the writer"]
 REQUIRED_TAGS = ["backend-inmem", "backend-local", "get-inrange", "get-suffix", "get-len-overshoot", "get-at-end", "get-empty-blob", "get-notfound",
                  "get-neglen", "inmem-panic-beyond-end", "inmem-panic-neg-beyond", "local-empty-beyond-end", "local-err-neg-beyond",
                  "cap-win", "cap-lose", "cap-on-absent", "conc", "conc-one-winner", "conc-stale-no-winner", "conc-reader",
                  "cat", "cat-missing-inmem-silent", "cat-missing-local-err", "cat-over-batch",
+                 "git", "git-cas-retry-after-foreign-push", "git-cap-win", "git-cap-casfail", "git-aba-version-returns", "git-get-ok", "git-get-err",
+                 "local-get-pair-stress",
                  "nbs", "nbs-commit-ok", "nbs-commit-lost-race", "nbs-commit-retry-after-rebase", "nbs-dangling", "nbs-two-clients", "nbs-noop-commit"]
 
 NKEYS = 4
@@ -233,6 +246,11 @@ def gen_cases(rng, tier):
     cases += [copy.deepcopy(c) for c in NBS_FIXED]
     for _ in range(40 if quick else 2500):
         cases.append(gen_nbs_case(rng))
+    cases += [copy.deepcopy(c) for c in GIT_FIXED]
+    for _ in range(0 if quick else 30):
+        cases.append(gen_git_case(rng))
+    for _ in range(1 if quick else 6):
+        cases.append({"kind": "stress", "backend": "local", "updates": 100 if quick else 400, "readers": 8})
     return cases
 
 
@@ -340,6 +358,122 @@ def _nbs_classify(case, o):
 
 
 # ---------------------------------------------------------------------------
+# GitBlobstore (two clients of one bare remote) and the reader/writer stress
+# ---------------------------------------------------------------------------
+def _b(s):
+    return list(s)
+
+
+GIT_FIXED = [
+    # foreign client replaces the manifest between the acting client's fetch/validate and its push
+    {"kind": "git", "ops": [
+        {"c": 0, "op": "cap", "exp": "empty", "data": _b(b"base\n")},
+        {"c": 0, "op": "race", "exp": "cur", "data": _b(b"from A\n"), "fexp": "cur", "fdata": _b(b"from B\n")},
+        {"c": 1, "op": "get", "off": 0, "len": 0},
+        {"c": 0, "op": "get", "off": -2, "len": 1},
+        {"c": 1, "op": "get", "off": 8, "len": 0}]},
+    # stale / bogus expectations, A-B-A on contents brings the version back, a foreign CheckAndPut that loses
+    {"kind": "git", "ops": [
+        {"c": 0, "op": "cap", "exp": "empty", "data": _b(b"m0")},
+        {"c": 1, "op": "cap", "exp": "cur", "data": _b(b"m1")},
+        {"c": 0, "op": "cap", "exp": "ref", "ref": 0, "data": _b(b"m2")},
+        {"c": 1, "op": "cap", "exp": "cur", "data": _b(b"m0")},
+        {"c": 0, "op": "race", "exp": "ref", "ref": 0, "data": _b(b"m3"), "fexp": "bogus", "fdata": _b(b"zz")},
+        {"c": 1, "op": "get", "off": -3, "len": 0}]},
+]
+
+
+def gen_git_case(rng):
+    ops = [{"c": rng.randrange(2), "op": "cap", "exp": "empty", "data": _b(b"g0")}]
+    n = 1
+    for _ in range(rng.randint(2, 4)):
+        c = rng.randrange(2)
+        r = rng.random()
+        d = _b(b"g%d" % rng.randrange(4))           # small content space: versions come back
+        if r < 0.3:
+            ops.append({"c": c, "op": "get", "off": rng.choice([0, 0, -1, 1, 2, 3, -2, -3]), "len": rng.choice([0, 0, 1, 5])})
+        elif r < 0.6:
+            ops.append({"c": c, "op": "cap", "exp": rng.choice(["cur", "cur", "bogus", "empty"]), "data": d})
+        elif r < 0.7:
+            ops.append({"c": c, "op": "cap", "exp": "ref", "ref": 0, "data": d})
+        else:
+            ops.append({"c": c, "op": "race", "exp": "cur", "data": d, "fexp": rng.choice(["cur", "cur", "bogus"]), "fdata": _b(b"f%d" % n)})
+        n += 1
+    return {"kind": "git", "ops": ops}
+
+
+def _git_coq_case(case, out):
+    o = out.get("obs") if out else None
+    sch, rs = [], []
+    for i, op in enumerate(case["ops"]):
+        st = o["steps"][i] if o else None
+        r = st["res"] if st else None
+        c = op["c"] % 2
+        if op["op"] == "get":
+            sch.append("(%d, (OGet 0 %s %s))" % (c, cq_Z(op["off"]), cq_Z(op["len"])))
+        else:
+            if op["op"] == "race" and st and st.get("foreign"):
+                fr = st["foreign"]
+                sch.append("(%d, %s)" % (1 - c, _op_term({"op": "cap", "data": op["fdata"]}, fr)))
+                rs.append(_res_term(fr))
+            sch.append("(%d, %s)" % (c, _op_term({"op": "cap", "data": op["data"]}, r)))
+        if r is not None:
+            rs.append(_res_term(r))
+    return "(IGit %s, OBlob %s)" % (cq_list(sch), cq_list(rs))
+
+
+def _git_classify(case, o):
+    t = {"git"}
+    vers = {}
+    for op, st in zip(case["ops"], o["steps"]):
+        r = st["res"]
+        if op["op"] == "get":
+            t.add("git-get-" + ("ok" if r["r"] == "bytes" else r["r"]))
+            continue
+        t.add("git-cap-win" if r["r"] == "ver" else "git-cap-" + r["r"])
+        if op["op"] == "race":
+            f = st.get("foreign")
+            if f and f["r"] == "ver":
+                t.add("git-cas-retry-after-foreign-push")      # a foreign push landed between fetch/validate and push
+                if r["r"] == "ver":
+                    t.add("git-STALE-CAS-WON-AFTER-FOREIGN-PUSH")
+            elif f:
+                t.add("git-foreign-cap-lost")
+        for d, rr in ((op["data"], r), (op.get("fdata"), st.get("foreign"))):
+            if rr and rr["r"] == "ver":
+                if vers.get(rr["ver"], tuple(d)) != tuple(d):
+                    t.add("git-VERSION-SHARED-BY-DIFFERENT-CONTENTS")
+                if tuple(d) in vers.values() and rr["ver"] in vers:
+                    t.add("git-aba-version-returns")
+                vers[rr["ver"]] = tuple(d)
+    return sorted(t)
+
+
+def _stress_coq_case(case, out):
+    be = "InMem" if case["backend"] == "inmem" else "Local"
+    o = out.get("obs") if out else None
+    if o is None:
+        return "(IStress %s [], OStress [RErr] [])" % be
+    sch = ["(0, (OCap %d %s %d))" % (r["exp"], cq_bytes([i >> 8, i & 255]), r["ver"] if r["r"] == "ver" else 0) for i, r in enumerate(o["writer"])]
+    seen = ["(%d, %s)" % (p["ver"], cq_bytes(p["data"])) for p in o["seen"]]
+    return "(IStress %s %s, OStress %s %s)" % (be, cq_list(sch), cq_list(_res_term(r) for r in o["writer"]), cq_list(seen))
+
+
+def _stress_classify(case, o):
+    t = {"stress"}
+    if case["backend"] == "local" and o["reads"] >= 1000 and len(o["seen"]) >= 10:
+        t.add("local-get-pair-stress")
+    written = {(r["ver"], (i >> 8, i & 255)) for i, r in enumerate(o["writer"]) if r["r"] == "ver"}
+    if any((p["ver"], tuple(p["data"])) not in written for p in o["seen"]):
+        t.add("stress-READER-PAIR-NEVER-WRITTEN")
+    if len({r["ver"] for r in o["writer"] if r["r"] == "ver"}) < sum(1 for r in o["writer"] if r["r"] == "ver"):
+        t.add("stress-writer-version-collision")
+    if o.get("readerr"):
+        t.add("stress-reader-error")
+    return sorted(t)
+
+
+# ---------------------------------------------------------------------------
 # Coq terms
 # ---------------------------------------------------------------------------
 def _res_term(r):
@@ -384,6 +518,10 @@ def _linearise(conc_ops, conc_res):
 def coq_case(case, out):
     if case.get("kind") == "nbs":
         return _nbs_coq_case(case, out)
+    if case.get("kind") == "git":
+        return _git_coq_case(case, out)
+    if case.get("kind") == "stress":
+        return _stress_coq_case(case, out)
     be = "InMem" if case["backend"] == "inmem" else "Local"
     o = out.get("obs") if out else None
     if o is None:
@@ -406,6 +544,10 @@ def classify(case, out):
         return ["panic-or-harness-error"]
     if case.get("kind") == "nbs":
         return _nbs_classify(case, o)
+    if case.get("kind") == "git":
+        return _git_classify(case, o)
+    if case.get("kind") == "stress":
+        return _stress_classify(case, o)
     be = case["backend"]
     t = {"backend-" + be}
     sizes = {}
@@ -476,6 +618,8 @@ def classify(case, out):
 
 
 def nontrivial(case, out):
+    if case.get("kind") in ("git", "stress"):
+        return True
     if case.get("kind") == "nbs":
         return any(op["op"] == "commit" for op in case["ops"])
     ops = case["pre"] + case["conc"] + case["post"]
@@ -498,6 +642,8 @@ def _drop(case, part, j):
 
 
 def shrink_candidates(case):
+    if case.get("kind") in ("git", "stress"):
+        return                                   # expensive / statistical: reported as found
     if case.get("kind") == "nbs":
         for j in reversed(range(len(case["ops"]))):
             c = copy.deepcopy(case); del c["ops"][j]
@@ -515,6 +661,8 @@ def shrink_candidates(case):
 
 def neighbours(case, rng):
     out = []
+    if case.get("kind") in ("git", "stress"):
+        return []
     if case.get("kind") == "nbs":
         return [gen_nbs_case(rng) for _ in range(40)]
     for part in ("pre", "post"):
@@ -547,7 +695,7 @@ FRESHNESS_KEY = "blobstore.local:mtime-version-collision"
 def _version_collision(case, out):
     """A successful write whose returned version equals an earlier version of the same key (interned ids)."""
     o = out.get("obs") if out else None
-    if o is None or case.get("kind") == "nbs":
+    if o is None or case.get("kind") in ("nbs", "git", "stress"):
         return None
     used = set()
     ops = list(zip(case["pre"], o["pre"])) + list(zip(case["conc"], o["conc"])) + list(zip(case["post"], o["post"]))
@@ -561,12 +709,28 @@ def _version_collision(case, out):
     return None
 
 
+def _run_split(binary, cases):
+    """git cases spawn many git subprocesses (seconds per operation under load): each runs in its own harness process,
+    concurrently with the rest."""
+    import concurrent.futures
+    slow = [i for i, c in enumerate(cases) if c.get("kind") == "git"]
+    rest = [i for i, c in enumerate(cases) if c.get("kind") != "git"]
+    outs = [None] * len(cases)
+    groups = [rest] + [slow[j::6] for j in range(min(6, len(slow)))]
+    with concurrent.futures.ThreadPoolExecutor(max_workers=len(groups)) as ex:
+        futs = [(g, ex.submit(vlib.run_harness, binary, HARNESS_RUNNER, [cases[i] for i in g], 1800)) for g in groups if g]
+        for g, f in futs:
+            for i, o in zip(g, f.result()):
+                outs[i] = dict(o, i=i)
+    return outs
+
+
 def run_impl(ctx, binary, cases):
     """Runs the harness; a case on which the file system handed the same mtime to two successive writes of one key
     (versions_distinct measured false: the implementation's 10 ms sleep did not separate them) is reported as a known
     finding and re-run, so that the correspondence is evaluated on an observation that meets the stated hypothesis.
     If the collision persists after the retries the observation is kept and the exact oracle reports it."""
-    outs = vlib.run_harness(binary, HARNESS_RUNNER, cases, timeout=1800)
+    outs = _run_split(binary, cases)
     collisions = 0
     for i, (c, o) in enumerate(zip(cases, outs)):
         tries = 0
